@@ -359,6 +359,24 @@ func emitApk(b []byte) ([]M, error) {
 		evs = append(evs, M{"ev": "outer", "i": i + 1, "name": s.kind, "size": len(comp), "mt": clampInt(s.g.Mtime), "mode": 0, "off": s.g.Off, "cid": d.Cid,
 			"text": "", "comp": "gzip", "eoa": endsWithEOA(s.g.Raw), "sha1": d.SHA1, "sha256": d.SHA256, "first": safeStr(first), "rawlen": len(s.g.Raw)})
 	}
+	// apk reads the concatenation of all gzip members as ONE tar stream
+	{
+		var whole bytes.Buffer
+		total := 0
+		for _, s := range segs {
+			whole.Write(s.g.Raw)
+			total += len(s.mem)
+		}
+		wm, werr := readTar(bytes.NewReader(whole.Bytes()))
+		switch {
+		case werr != nil:
+			evs = append(evs, structEv("apk_whole_stream", "error: "+safeStr(werr.Error())))
+		case len(wm) != total:
+			evs = append(evs, structEv("apk_whole_stream", fmt.Sprintf("members %d of %d", len(wm), total)))
+		default:
+			evs = append(evs, structEv("apk_whole_stream", "ok"))
+		}
+	}
 	for _, s := range segs {
 		for i, t := range s.mem {
 			in := s.kind
